@@ -30,3 +30,13 @@ def cls_is_module(ex, obj: SV, module: str, simple_name: str):
     q = f"{module}.{simple_name}"
     ex.tree.cls(q)
     return ex.isinstance_term(obj.some.v, q)
+
+
+def wdays(ex, x):
+    """floor(x / 1 day) for a microsecond difference x, as an uninterpreted function with the defining property `wdays_def`."""
+    return ex.uf("whole_days", z3.IntSort(), z3.IntSort())(x)
+
+
+def wdays_def(ex, x):
+    d = wdays(ex, x)
+    return And(d * US_PER_DAY <= x, x < (d + 1) * US_PER_DAY)
